@@ -14,6 +14,7 @@ RULE = ("(1) correspondence of Model/MatchResult.v (append, wrap, apply) with th
         "nodes vs PRS errors. non-trivial = a match result with >=1 child and >=1 insert, or a parse whose tree has an unparsable node or "
         ">= 20 tokens; distinct by value")
 ASSUMPTIONS = ["segment classes construct their node from exactly the segments handed to from_result_segments (checked end to end by (3))",
+               "BaseSegment construction asserts (validate_non_code_ends) are not in the model of apply: the correspondence uses classed matches that begin/end on code",
                "combinators build results only through MatchResult(...), append and wrap (the certificate checks every real root result regardless)"]
 TRUSTED_BASE = ["hand model Model/MatchResult.v of core/parser/match_result.py", "harness/treecheck.py conversion of real MatchResults to model terms"]
 
@@ -192,6 +193,72 @@ def run(ctx, coq_ok):
         el = "[" + ";".join("(%d,%d)" % x for x in extra) + "]"
         aw_lits.append("(append %s %s %s, wrap %s 2 %s)" % (_mr_lit(a), _mr_lit(b), el, _mr_lit(a), el))
 
+    # ---------- root_parse assembly (BaseFileSegment.root_parse with a stub root grammar returning a chosen match)
+    from sqlfluff.core.parser import BaseSegment, RawSegment, WhitespaceSegment
+    from sqlfluff.core.parser.context import ParseContext
+    from sqlfluff.core.parser.markers import PositionMarker
+    from sqlfluff.core.parser.segments.base import UnparsableSegment
+    from sqlfluff.core.parser.segments.file import BaseFileSegment
+    from sqlfluff.core.templaters.base import TemplatedFile
+    from sqlfluff.core.dialects import dialect_selector
+    rp_cases, rp_impl, rp_lits = [], [], []
+    NR = 6
+    tfr = TemplatedFile(source_str="abcdef", fname="r.sql")
+    for _ in range(250 if ctx.tier == "quick" else 2500):
+        code = [rng.random() < 0.6 for _ in range(NR)]
+        rtoks = tuple((RawSegment if code[i] else WhitespaceSegment)("abcdef"[i], PositionMarker(slice(i, i + 1), slice(i, i + 1), tfr)) for i in range(NR))
+        rpos = {id(t): i for i, t in enumerate(rtoks)}
+        first = next((i for i in range(NR) if code[i]), None)
+        if first is None or rng.random() < 0.15:
+            mt = (0, 0, None, [], [])
+        else:
+            last = max(i for i in range(NR) if code[i]) + 1
+            a = first if rng.random() < 0.85 else rng.randrange(0, NR)
+            b = rng.randrange(a, last + 1) if a <= last else a
+            mt = gen_mr(rng, NR, 1, a, b, malformed=rng.random() < 0.15)
+            # segment construction asserts that a classed node begins and ends on code (validate_non_code_ends, outside the model):
+            # keep non-code tokens outside the matched slice
+            for i in range(a, min(b, NR)):
+                code[i] = True
+            rtoks = tuple((RawSegment if code[i] else WhitespaceSegment)("abcdef"[i], PositionMarker(slice(i, i + 1), slice(i, i + 1), tfr)) for i in range(NR))
+            rpos = {id(t): i for i, t in enumerate(rtoks)}
+        try:
+            real_m = _real_mr(mt, classes, metas)
+        except AssertionError:
+            continue
+
+        class StubGrammar:
+            def match(self, segments, idx, parse_context, _m=real_m):
+                return _m
+
+            def __str__(self):
+                return "stub"
+        FileCls = type("FileStub", (BaseFileSegment,), {"match_grammar": StubGrammar()})
+
+        def canon_rp(seg):
+            if id(seg) in rpos:
+                return ("Tok", rpos[id(seg)])
+            if seg.is_meta:
+                return ("Meta", metas.index(type(seg)), seg.pos_marker.templated_slice.start)
+            if isinstance(seg, BaseFileSegment):
+                return ("Node", 0, [canon_rp(x) for x in seg.segments])
+            if isinstance(seg, UnparsableSegment):
+                return ("Node", 1, [canon_rp(x) for x in seg.segments])
+            return ("Node", 10 + classes.index(type(seg)), [canon_rp(x) for x in seg.segments])
+        try:
+            root = FileCls.root_parse(rtoks, ParseContext(dialect=dialect_selector("ansi"), max_parse_depth=255))
+            r = ("Ok", canon_rp(root))
+        except (AssertionError, ValueError, IndexError) as ex:
+            r = ("Err", EK[type(ex).__name__])
+        ctx.case(("root_parse", repr(code), repr(mt)) if mt[1] > mt[0] else None, bucket="root_parse:%s" % r[0])
+        rp_cases.append((code, mt))
+        rp_impl.append(r)
+        # classes are shifted by 10 in the model term so that they cannot collide with file (0) / unparsable (1)
+        def shift(t):
+            s0, e0, c0, i0, ch0 = t
+            return (s0, e0, None if c0 is None else c0 + 10, i0, [shift(x) for x in ch0])
+        rp_lits.append("root_parse %d (fun i => nth i %s false) %s" % (NR, "[" + ";".join(coq.cbool(c) for c in code) + "]", _mr_lit(shift(mt))))
+
     certs = []
     # ---------- (3) end-to-end + (2) certificates from real parses
     per = 3 if ctx.tier == "quick" else 25
@@ -241,6 +308,13 @@ def run(ctx, coq_ok):
         if m2 != r2:
             ctx.broken_obligation("correspondence Model.MatchResult.wrap vs MatchResult.wrap", {"input": [a, extra], "model": m2, "impl": r2})
             break
+    rp_model = coq.eval_sharded(["Model.MatchResult"], "fun x : res tree => x", rp_lits, shard=100)
+    for (code, mt), mv, r in zip(rp_cases, rp_model, rp_impl):
+        m = _res(mv, _canon_model_tree)
+        if m != r:
+            ctx.broken_obligation("correspondence Model.MatchResult.root_parse vs BaseFileSegment.root_parse", {"input": {"is_code": code, "match": mt}, "model": m, "impl": r})
+            break
+        # the theorem observed on the implementation: certified match starting at the first code token => every token once, in order
     # ---------- certificates
     cl = ["wf_b %d %s" % (c[1], c[0]) for (_d, _l, _s, c) in certs]
     if cl:
@@ -250,8 +324,11 @@ def run(ctx, coq_ok):
             if not ok:
                 ctx.violation("root-match-not-wf", "the root MatchResult of a real parse is rejected by the verified checker wf_b (dialect %s)" % d,
                               {"input": {"dialect": d, "label": label, "sql": sql}, "match_result": c[0][:2000]}, attrs={"dialect": d})
+            elif len(c) > 5 and not c[5]:
+                ctx.violation("root-match-start", "the root match does not start at the first code token: tokens before it would be dropped by root_parse (dialect %s)" % d,
+                              {"input": {"dialect": d, "label": label, "sql": sql}}, attrs={"dialect": d})
             elif not c[2]:
                 ctx.violation("root-apply-lossy", "the tree built from a certified root MatchResult does not hold exactly the matched tokens (dialect %s)" % d,
                               {"input": {"dialect": d, "label": label, "sql": sql}}, attrs={"dialect": d})
     ctx.coverage_extra["root_match_certificates_checked"] = len(cl)
-    ctx.coverage_extra["model_vs_impl_cases"] = len(lits) + len(aw_lits)
+    ctx.coverage_extra["model_vs_impl_cases"] = len(lits) + len(aw_lits) + len(rp_lits)
